@@ -9,6 +9,7 @@ import (
 	"os"
 	"path/filepath"
 	"sort"
+	"strings"
 )
 
 type shard struct {
@@ -58,6 +59,11 @@ func main() {
 		}
 		var s shard
 		if err := json.Unmarshal(b, &s); err != nil {
+			if strings.HasPrefix(filepath.Base(f), "fz-") {
+				// the counters of a native fuzz worker are a bonus: an unreadable file only lowers the reported counts
+				fmt.Fprintln(os.Stderr, "evmerge: skipping unreadable fuzz worker file", f, err)
+				continue
+			}
 			fmt.Fprintln(os.Stderr, "evmerge: bad shard", f, err)
 			os.Exit(2)
 		}
